@@ -220,6 +220,15 @@ def run_case(ctx, repo, case):
         # container behaviour, decided against the reference
         integral = all(R.tp_is_integral(p) for p in pts)
         if integral:
+            # exact regime for the whole cluster (R1): a decimal-hour form
+            # cannot absorb offset minutes exactly
+            offs = [R.tp_offset_minutes(p) for p in pts]
+            for p in pts:
+                if p._minute_of_hour is None and p._second_of_minute is None:
+                    if any((R.tp_offset_minutes(p) - o) % 60 for o in offs) \
+                            or R.tp_offset_minutes(p) % 60:
+                        integral = False
+        if integral:
             insts = [R.tp_instant(mode, p) for p in pts]
             ctx.ev("containers")
             srt = sorted(pts)
